@@ -333,7 +333,7 @@ def run(ctx, report: Report) -> None:
                          f'the other way give the wrong range verdict')
 
     # ---- R8 (the whole pipeline by interpretation, bounded) --------------------------------------------------------------
-    r8 = report.rule('C18-R8', ':in-range / :out-of-range over inputs of every range type that share attribute texts, in both document orders (bounded)', floor=2)
+    r8 = report.rule('C18-R8', ':in-range / :out-of-range over inputs of every range type that share attribute texts, in both document orders (bounded)', floor=1)
     from .e2ematch import range_pipeline_table
     range_pipeline_table(ctx, r8)
 
